@@ -222,6 +222,8 @@ class Engine(object):
         n = utf8_len(s.t, self.int_mode)
         self.assume(n >= 0)
         self.assume(n <= n.hi)
+        # the empty string is the only one with an empty encoding
+        self.assume(SBool((n.t == 0) == (s.t == z3.StringVal(''))))
         return s
 
     def new_blob(self, base, length=None, lo=0, hi=(1 << 31) - 1):
